@@ -246,12 +246,37 @@ def check(ctx: Ctx):
         ctx.check(prev is not None and isinstance(prev, ast.Assign) and is_self_attr(prev.targets[0], "upper_bound"), "R-BOUND", f"{f.name}: a value is (re)selected only when the bound improves", f, c,
                   "the values held at termination must be those of the best assignment found")
     # last-variable loop: tries every remaining value
+    # either rotation of the loop: `while True: .. nv = next(..); if nv is None: break; value, cost = nv` or `while nv is not None: value, cost = nv; .. nv = next(..)`
     wl = [w for w in ast.walk(fw.node) if isinstance(w, ast.While)]
-    ok = len(wl) == 1 and norm(wl[0].test) == "True"
+    ok = len(wl) == 1 and not wl[0].orelse
     if ok:
-        tw = norm(wl[0])
-        ok = "if next_value is None:\n        break" in tw.replace("            ", "    ").replace("    break", "        break") or ("if next_value is None:" in tw and "break" in tw)
-        ok = ok and "value, cost = next_value" in tw and "path_bound = sum((c for _, _, c in current_path))" in t
+        w = wl[0]
+        nv = "next_value"
+        brk = [b for b in ast.walk(w) if isinstance(b, ast.Break)]
+        ffw = FuncFacts(fw.node)
+        tst = norm(w.test)
+        if tst == "True":
+            # the only way out is `nv is None`, tested right after the scan for the next candidate
+            okx = len(brk) == 1 and any(isinstance(st_, ast.If) and norm(st_.test) == f"{nv} is None" and not st_.orelse and len(st_.body) == 1 and st_.body[0] is brk[0] for st_ in w.body)
+        else:
+            okx = tst == f"{nv} is not None" and not brk
+        scans = [st_ for st_ in w.body if isinstance(st_, ast.Assign) and norm(st_.targets[0]) == nv and isinstance(st_.value, ast.Call) and call_name(st_.value) == "get_next_assignment"]
+        others = [n_ for n_ in ast.walk(w) if isinstance(n_, ast.Name) and n_.id == nv and isinstance(n_.ctx, ast.Store)]
+        unp = [st_ for st_ in ast.walk(fw.node) if isinstance(st_, ast.Assign) and norm(st_.value) == nv and isinstance(st_.targets[0], ast.Tuple) and len(st_.targets[0].elts) == 2]
+        in_loop_unp = [u for u in unp if any(x is u for x in ast.walk(w))]
+        ok = okx and len(scans) == 1 and len(others) == 1 and len(in_loop_unp) == 1 and in_loop_unp[0] in w.body
+        if ok:
+            val_n, cost_n = [norm(e) for e in in_loop_unp[0].targets[0].elts]
+            # the scan resumes after the value just examined
+            ok = len(scans[0].value.args) >= 2 and norm(scans[0].value.args[1]) == val_n
+            # in the `while True` rotation the first candidate is unpacked before the loop; in the other one at the top of the body
+            if tst == "True":
+                wb = _block_of(fw.node, w)
+                pre = [u for u in unp if u in wb and wb.index(u) < wb.index(w)]
+                ok = ok and len(pre) == 1 and w.body.index(scans[0]) < w.body.index(in_loop_unp[0])
+            else:
+                ok = ok and w.body[0] is in_loop_unp[0] and w.body[-1] is scans[0]
+        ok = ok and "path_bound = sum((c for _, _, c in current_path))" in t
     ctx.check(ok, "R-BOUND", "last variable: every admissible value is compared with the best bound before backtracking", fw, wl[0] if wl else fw.node, "")
     # ---- chain (shared with C16) ----------------------------------------------------------------------
     from . import c16 as _c16
@@ -413,6 +438,12 @@ def _next(ctx, repo, gna):
 _S = "pydcop/algorithms/syncbb.py"
 _OG = "pydcop/computations_graph/ordered_graph.py"
 VARIANTS = [
+    ("last_var_scan_not_resumed", _S, "                    next_value = get_next_assignment(\n                        self.variable,\n                        value,\n                        self.constraints,\n                        current_path,\n                        self.upper_bound,\n                        self.mode,\n                    )\n                    if next_value is None:\n                        break",
+     "                    next_value = get_next_assignment(\n                        self.variable,\n                        None,\n                        self.constraints,\n                        current_path,\n                        self.upper_bound,\n                        self.mode,\n                    )\n                    if next_value is None:\n                        break", "break", "R-BOUND"),
+    ("last_var_loop_leaves_on_first_non_improving", _S, "                    elif self.mode == \"max\" and path_bound + cost > best_bound:\n                        best_bound = path_bound + cost\n                        best_val = value\n",
+     "                    elif self.mode == \"max\" and path_bound + cost > best_bound:\n                        best_bound = path_bound + cost\n                        best_val = value\n                    else:\n                        break\n", "break", "R-BOUND"),
+    ("n_last_var_loop_rotated", _S, ["                value, cost = next_value\n                best_val, best_bound = None, self.upper_bound\n                while True:\n", "                    if next_value is None:\n                        break\n                    value, cost = next_value\n                if best_val is not None:"],
+     ["                best_val, best_bound = None, self.upper_bound\n                while next_value is not None:\n                    value, cost = next_value\n", "                if best_val is not None:"], "neutral"),
     ("backward_prunes_on_own_path_cost", _S, "        next_val = get_next_assignment(\n            self.variable,\n            val,\n            self.constraints,\n            current_path[:-1],\n            self.upper_bound,\n            self.mode,\n        )\n        if next_val is not None:",
      "        next_val = None\n        if self.mode == \"max\" or sum(c for _, _, c in current_path) < self.upper_bound:\n            next_val = get_next_assignment(\n                self.variable,\n                val,\n                self.constraints,\n                current_path[:-1],\n                self.upper_bound,\n                self.mode,\n            )\n        if next_val is not None:", "break", "R-PATH"),
     ("first_variable_stops_on_zero_bound", _S, "            self.upper_bound,\n            self.mode,\n        )\n        if next_val is not None:\n            new_val, new_cost = next_val\n            new_path = current_path[:-1]",
